@@ -318,7 +318,12 @@ def fam_elements(R, kind, via='svg2paths'):
         claim = z3.BoolVal(len(q) == len(ref))
         if len(q) == len(ref):
             claim = z3.And(*[seg_ref_eq(r_, s_) for r_, s_ in zip(ref, q)])
-        R.ob('element.' + kind, ctx, claim, cex=cex, timeout_ms=60000)
+        # a violation is looked for first among attribute values that need many significant digits
+        long_vals = []
+        for i_, (tk_, sr_) in enumerate(sorted(TOK.reg.items())):
+            if isinstance(sr_, SR) and z3.is_const(sr_.e) and sr_.e.decl().kind() == z3.Z3_OP_UNINTERPRETED:
+                long_vals.append(sr_.e == z3.RealVal('%d.%s' % (1000 + 37 * i_, '0625' if i_ % 2 else '1875')))
+        R.ob('element.' + kind, ctx, claim, cex=cex, timeout_ms=60000, robust=long_vals + [z3.Not(claim)])
         R.sample({'element': kind, 'd': d[:160]})
 
 
